@@ -10,12 +10,13 @@ Open Scope N_scope.
 Definition tail_nodeb (n : term) : bool :=
   match n with
   | TList (TVar id name) nx c true => (id =? 0) && simple_var name && is_empty_list nx && (c =? 1)
+  | TList TAnon nx c true => is_empty_list nx && (c =? 1)
   | _ => false
   end.
 
 Fixpoint canonicalb (t : term) : bool :=
   match t with
-  | TAtom s => simple_atom s
+  | TAtom s => wide_atom s
   | TInt z => ((- 2 ^ 63 <=? z) && (z <? 2 ^ 63))%Z
   | TVar id name => (id =? 0) && simple_var name
   | TAnon => true
@@ -29,25 +30,45 @@ Fixpoint canonicalb (t : term) : bool :=
   | _ => false
   end.
 
+(* the tails of canonical lists *)
+Definition can_tail (v : term) : Prop :=
+  v = TAnon \/ exists name, v = TVar 0 name /\ simple_var name = true.
+
 Lemma tail_nodeb_spec n : tail_nodeb n = true ->
-  exists name, simple_var name = true /\ elems n = Some ([], Some (TVar 0 name)).
+  exists v, can_tail v /\ elems n = Some ([], Some v).
 Proof.
   destruct n as [| | | | | | |x nx c tv|]; try discriminate. cbn [tail_nodeb].
-  destruct x as [| | | | |id name| | |]; try discriminate. destruct tv; [|discriminate]. intros H.
-  apply andb_true_iff in H as [H Hc]. apply andb_true_iff in H as [H He].
-  apply andb_true_iff in H as [Hid Hn]. apply N.eqb_eq in Hid. subst id.
-  exists name. split; [exact Hn|]. cbn [elems is_nil]. now rewrite He, Hc.
+  destruct x as [| | | | |id name| | |]; try discriminate; (destruct tv; [|discriminate]); intros H.
+  - apply andb_true_iff in H as [He Hc]. exists TAnon. split; [now left|].
+    cbn [elems is_nil]. now rewrite He, Hc.
+  - apply andb_true_iff in H as [H Hc]. apply andb_true_iff in H as [H He].
+    apply andb_true_iff in H as [Hid Hn]. apply N.eqb_eq in Hid. subst id.
+    exists (TVar 0 name). split; [right; eauto|]. cbn [elems is_nil]. now rewrite He, Hc.
+Qed.
+
+Lemma can_list_with_tail l ts v :
+  elems l = Some (ts, Some v) -> ts <> [] -> (forall t, In t ts -> canonical t) -> can_tail v ->
+  canonical l.
+Proof.
+  intros He Hne Hts [->|(name & -> & Hn)].
+  - now apply (can_list_anon l ts).
+  - now apply (can_list_tail l ts name).
 Qed.
 
 (* a canonical list node has a view *)
 Lemma canonical_list_view l : canonical l -> is_list l = true ->
   exists ts tl, elems l = Some (ts, tl) /\ (forall t, In t ts -> canonical t) /\
-    (tl = None \/ exists name, tl = Some (TVar 0 name) /\ ts <> [] /\ simple_var name = true).
+    (tl = None \/ exists v, tl = Some v /\ ts <> [] /\ can_tail v).
 Proof.
-  intros H Hl. inversion H as [s Hs|z Hz|name Hn| |f ts Hf Hts Hlen|l0 ts He Hts|l0 ts name He Hne Hts Hn];
+  intros H Hl.
+  inversion H as [s Hs|z Hz|name Hn| |f ts Hf Hts Hlen|l0 ts He Hts|l0 ts name He Hne Hts Hn
+                  |l0 ts He Hne Hts];
     subst; try discriminate.
   - exists ts, None. auto.
-  - exists ts, (Some (TVar 0 name)). split; [exact He|]. split; [exact Hts|]. right. eauto.
+  - exists ts, (Some (TVar 0 name)). split; [exact He|]. split; [exact Hts|]. right.
+    exists (TVar 0 name). split; [reflexivity|]. split; [exact Hne|]. right. eauto.
+  - exists ts, (Some TAnon). split; [exact He|]. split; [exact Hts|]. right.
+    exists TAnon. split; [reflexivity|]. split; [exact Hne|]. now left.
 Qed.
 
 Theorem canonicalb_sound : forall t, canonicalb t = true -> canonical t.
@@ -71,8 +92,8 @@ Proof.
       apply andb_true_iff in H as [Htv Hx]. apply negb_true_iff in Htv. subst tv.
       specialize (IHx Hx).
       apply orb_true_iff in Hnx as [Hnx|Hnx].
-      * destruct (tail_nodeb_spec nx Hnx) as (name & Hn & He).
-        apply (can_list_tail _ [x] name); [|discriminate| |exact Hn].
+      * destruct (tail_nodeb_spec nx Hnx) as (v & Hv & He).
+        apply (can_list_with_tail _ [x] v); [|discriminate| |exact Hv].
         -- cbn [elems]. now rewrite Ex, He, Hc.
         -- intros t [<-|[]]. exact IHx.
       * apply andb_true_iff in Hnx as [Hl Hcn]. specialize (IHnx Hcn).
@@ -81,9 +102,9 @@ Proof.
         { intros t [<-|Ht]; [exact IHx|now apply Hts]. }
         assert (He' : elems (TList x nx c false) = Some (x :: ts, tl)).
         { cbn [elems]. now rewrite Ex, He, Hc. }
-        destruct Htl as [->|(name & -> & Hne & Hn)].
+        destruct Htl as [->|(v & -> & Hne & Hv)].
         -- now apply (can_list _ (x :: ts)).
-        -- apply (can_list_tail _ (x :: ts) name); [exact He'|discriminate|exact Hts'|exact Hn].
+        -- apply (can_list_with_tail _ (x :: ts) v); [exact He'|discriminate|exact Hts'|exact Hv].
 Qed.
 
 Corollary canonicalb_roundtrip : forall t fuel,
@@ -98,6 +119,7 @@ Example canonicalb_example :
                 make_linked_list true [TInt 1; TInt (-2); TVar 0 (s2l "$T")];
                 make_linked_list false [TAtom [97]; make_list_of_terms []; TAtom [98]];
                 make_list_of_terms [];
+                make_linked_list true [TAtom [97]; TAnon];
                 TAnon]) = true.
 Proof. vm_compute. reflexivity. Qed.
 
@@ -106,8 +128,7 @@ Example canonicalb_rejects :
   map canonicalb
     [TVar 0 (s2l "$_"); TVar 1 (s2l "$X"); TNil; TComplex [];
      TComplex [TAtom (s2l "add"); TInt 1; TInt 2];
-     make_linked_list true [TAtom [97]; TAnon];
      make_linked_list true [TVar 0 (s2l "$T")];
      TList (TAtom [97]) empty_list 5 false] =
-  [false; false; false; false; false; false; false; false].
+  [false; false; false; false; false; false; false].
 Proof. vm_compute. reflexivity. Qed.
